@@ -1,5 +1,5 @@
 """C05 - MLPG: second sentence only (boundary/unvoiced masking, no-data marker, shared frame->state assignment)."""
-from ..expr import ExprBuilder, show, walk, to_poly, Poly, canon
+from ..expr import ExprBuilder, show, walk, to_poly, Poly, canon, resolve_upvars, resolve_upvar_text
 from .. import paths
 from . import common as cm
 from . import c05_solver
@@ -27,13 +27,20 @@ def run(ctx):
         if atoms is None:
             ctx.fail("C05-R1", pred.path, "truth table", "the masking closure is not a loop-free boolean decision over <= 6 atoms", pred.loc())
         else:
-            A = [a for a in atoms if a.startswith("Lt(") and "left_width" in a]
-            B = [a for a in atoms if a.startswith("Lt(") and "right_width" in a]
-            C = [a for a in atoms if "window_index" in a]
-            ok_atoms = len(atoms) == 3 and len(A) == 1 and len(B) == 1 and len(C) == 1
+            # captured variables are compared by value: the window and its index are the two halves of
+            # the enclosing closure's (index, window) parameter
+            import re as _re
+            ratoms = [resolve_upvar_text(p, pred, a) for a in atoms]
+            A = [a for a in ratoms if a.startswith("Lt(") and "left_width(" in a]
+            B = [a for a in ratoms if a.startswith("Lt(") and "right_width(" in a]
+            wa = _re.search(r"left_width\((.*)\.1\)\)$", A[0]) if len(A) == 1 else None
+            wb = _re.search(r"right_width\((.*)\.1\)\)$", B[0]) if len(B) == 1 else None
+            C = [a for a in ratoms if wa and _re.match(r"^(Ne|Eq|Gt)\(%s\.0, 0\)$" % _re.escape(wa.group(1)), a)]
+            ok_atoms = len(atoms) == 3 and len(A) == 1 and len(B) == 1 and len(C) == 1 and wa and wb and wa.group(1) == wb.group(1) and wa.group(1).startswith("{closure")
             if ok_atoms:
-                # left distance is component .1.0, right is .1.1 of the zipped item; window_index != 0
-                ok_atoms = ".1.0" in A[0].split(",")[0] and ".1.1" in B[0].split(",")[0] and (C[0].startswith("Ne(") and C[0].endswith(", 0)") or C[0].startswith("Eq(") and C[0].endswith(", 0)") or C[0].startswith("Gt(") and C[0].endswith(", 0)"))
+                # left distance is component .1.0, right is .1.1 of the zipped item; window index != 0
+                ok_atoms = ".1.0" in A[0].split(",")[0] and ".1.1" in B[0].split(",")[0]
+            A, B, C = ([atoms[ratoms.index(x[0])]] if x else x for x in (A, B, C))
             if not ok_atoms:
                 ctx.fail("C05-R1", pred.path, "atoms", "the masking decision uses atoms %s, expected left < left_width, right < right_width, window_index != 0" % atoms, pred.loc())
             else:
@@ -99,16 +106,38 @@ def run(ctx):
         else:
             ctx.fail("C05-R2", cr.path, "column store", "the filled trajectory is not stored at [vector_index] of each row", cr.loc())
 
+        # every return of create() comes after the completed column loop over 0..self.vector_length:
+        # an early return would hand out the zero-initialised rows without the no-data fill
+        from ..loops import loop_var_parts
+        col_loops = set()
+        for bb, i, st, tgt, root, chain, val in stores(cr, eb):
+            for g in paths.guards(cr, bb, eb):
+                if g[0] == "some" and isinstance(g[1], tuple):
+                    lv = loop_var_parts(("field", ("variant", g[1], "Some"), "0"))
+                    if lv and lv[0] == "up" and show(lv[1]) == "0" and show(lv[2]) == "self.vector_length":
+                        col_loops.add(g[1])
+        rets = [(bb, e) for bb, e, item in paths.return_exprs(cr, eb)]
+        if len(col_loops) != 1:
+            ctx.fail("C05-R2", cr.path, "column loop", "expected one loop over 0..self.vector_length around the column store, found %d" % len(col_loops), cr.loc())
+        else:
+            loop = next(iter(col_loops))
+            early = [bb for bb, e in rets if not any(g[0] == "none" and g[1] == loop for g in paths.guards(cr, bb, eb))]
+            if rets and not early:
+                ctx.ok("C05-R2", "every return of create() follows the completed column loop (no early return with unfilled rows)", cr.loc())
+            else:
+                ctx.fail("C05-R2", cr.path, "early return", "create() can return before the column loop over 0..self.vector_length has run: the rows keep their zero initialisation instead of the generated / no-data values (return at %s)" % [cm.loc_of(cr.blocks[bb]["term"]["span"]) for bb in early], cr.loc())
+
     # ---- R3
     if outer is not None and cr is not None:
         eb = ExprBuilder(outer)
-        r = show(eb.local(0))
+        r = show(resolve_upvars(p, outer, eb.local(0)))
+        MC = "mlpg_adjust::mask::Mask::create(self.stream, self.msd_threshold, durations)"
         need = [
             ("IterExt>::duration(", "expanded by durations"),
-            ("^durations)", "the captured durations"),
+            ("), durations)", "the same durations slice that create() received"),
             ("IterExt>::filter_by(", "filtered"),
-            ("mlpg_adjust::mask::Mask::mask(^msd_flag)", "by the mask of msd_flag"),
-            ("^msd_boundaries", "zipped with the boundary distances"),
+            ("mlpg_adjust::mask::Mask::mask(%s)" % MC, "by the mask of Mask::create(self.stream, self.msd_threshold, durations)"),
+            ("mlpg_adjust::mask::Mask::boundary_distances(%s)" % MC, "zipped with the boundary distances of the same mask"),
             ("self.stream", "over self.stream"),
         ]
         miss = [why for s, why in need if s not in r.replace("*", "")]
@@ -116,42 +145,43 @@ def run(ctx):
             ctx.ok("C05-R3", "per-window sequence = stream.iter().map(elem[m].with_ivar).duration(durations).zip(msd_boundaries).map(mask_edge).filter_by(msd_flag.mask())", outer.loc())
         else:
             ctx.fail("C05-R3", outer.path, "pipeline", "parameter pipeline is missing: %s  (%s)" % (miss, r[:200]), outer.loc())
-        # captured values are the parent's msd_flag / durations / msd_boundaries
+        # captured values (whatever the variables are called): the mask, its boundary distances, durations
         peb = ExprBuilder(cr)
-        clos = None
+        vals = None
         for bb, i, st in cr.iter_stmts():
             if st["k"] == "assign" and st["rv"]["k"] == "aggregate" and st["rv"]["kind"].get("def") == outer.path:
-                caps = dict(zip([c["name"] for c in st["rv"]["kind"]["captures"]], [show(peb.at(bb, i).op(o)) for o in st["rv"]["ops"]]))
-                clos = caps
-        if clos:
-            okc = ("Mask::create(self.stream, self.msd_threshold, durations)" in clos.get("msd_flag", "") and
-                   clos.get("durations") == "durations" and
-                   "boundary_distances(mlpg_adjust::mask::Mask::create(self.stream, self.msd_threshold, durations))" in clos.get("msd_boundaries", ""))
+                vals = [show(peb.at(bb, i).op(o)) for o in st["rv"]["ops"]]
+        if vals:
+            okc = (any(v.endswith(MC) or v == MC for v in vals) and "durations" in vals and
+                   any(v == "mlpg_adjust::mask::Mask::boundary_distances(%s)" % MC for v in vals))
             if okc:
-                ctx.ok("C05-R3", "captures: msd_flag = Mask::create(self.stream, threshold, durations); msd_boundaries = msd_flag.boundary_distances(); durations = the same slice", cr.loc())
+                ctx.ok("C05-R3", "captures: Mask::create(self.stream, threshold, durations); its boundary_distances(); durations = the same slice", cr.loc())
             else:
-                ctx.fail("C05-R3", cr.path, "captures", "closure captures %s" % clos, cr.loc())
+                ctx.fail("C05-R3", cr.path, "captures", "closure captures %s" % vals, cr.loc())
         else:
             ctx.fail("C05-R3", cr.path, "closure", "window closure construction not found", cr.loc())
-        # element index m
-        names = {d.get("name"): l for l, d in enumerate(outer.locals) if d.get("name")}
-        if "m" in names:
-            m = eb.local(names["m"])
-            pol = to_poly(m)
-            vl = Poly.atom(canon(("field", ("upvar", "*self"), "vector_length")))
-            wi_ = [a for a in pol.atoms()]
-            s = repr(pol)
-            if "vector_length" in s and "vector_index" in s and len(pol.t) == 2:
-                ctx.ok("C05-R3", "m = vector_length*window_index + vector_index (%s)" % s, outer.loc())
-            else:
-                ctx.fail("C05-R3", outer.path, "element index", "m = %s" % s, outer.loc())
+        # element index: state.0[vector_length*window_index + vector_index].with_ivar()
         inner = p.body(outer.path + "::{closure#0}")
         if inner is not None:
-            r2 = show(ExprBuilder(inner).local(0))
-            if r2.startswith("model::mean_vari::MeanVari::with_ivar(") and "[^m]" in r2.replace("*", "") and ".0[" in r2:
-                ctx.ok("C05-R3", "element = state.0[m].with_ivar() (the Gaussian of window/vector component m)", inner.loc())
+            r2e = resolve_upvars(p, inner, ExprBuilder(inner).local(0))
+            r2 = show(r2e)
+            okm = False
+            if r2e[0] == "call" and r2e[1] == "model::mean_vari::MeanVari::with_ivar" and r2e[2][0][0] == "idx" and show(r2e[2][0][1]).endswith(".0"):
+                def at(e):
+                    if e[0] == "arg" and str(e[2] or "").startswith("{closure"):
+                        return ("outer", e[1])
+                    if e[0] == "field" and e[2] == "0" and e[1][0] == "arg" and str(e[1][2] or "").startswith("{closure"):
+                        return ("WI",)
+                    if e[0] == "field" and e[2] == "0" and e[1][0] == "variant" and "Range" in show(e[1][1]) and "vector_length" in show(e[1][1]):
+                        return ("VI",)
+                    return None
+                pol = to_poly(r2e[2][0][2], at)
+                vl = Poly.atom(canon(("field", ("arg", 1, "self"), "vector_length")))
+                okm = pol == vl * Poly.atom(("WI",)) + Poly.atom(("VI",))
+            if okm:
+                ctx.ok("C05-R3", "element = state.0[vector_length*window_index + vector_index].with_ivar() (window_index = first half of the enumerate item, vector_index = the column loop variable)", inner.loc())
             else:
-                ctx.fail("C05-R3", inner.path, "element", "element is %s" % r2, inner.loc())
+                ctx.fail("C05-R3", inner.path, "element", "element is %s" % r2[:300], inner.loc())
     # filter_by keeps exactly the items whose mask is true
     fb = p.body("<I as mlpg_adjust::IterExt>::filter_by::{closure#0}")
     if fb is not None:
